@@ -38,7 +38,7 @@ PROBES = ["contract_changed_on_same_paths", "feature_schedule", "hedger_schedule
           "other_use_between", "prev_hedge_not_last", "loss_compared", "ww_model", "bound_feature_reused", "steps_out_of_order", "recurrent_under_grad"]
 
 
-class SimFault(Exception):
+class SimFault(RuntimeError):
     pass
 
 
